@@ -208,7 +208,13 @@ def is_state(prog, rep, tag):
         d["no-iterator-adaptor"] = not adapt
         if len(it) == 1 and al:
             # from the comparison, the next frame or a possibly-true Ok is only reached through next()
-            reach = b.reachable_from(sb, avoid={it[0].bb}) if sb != it[0].bb else set()
+            # (feasible paths: the verdict may travel through a helper's Ok(bool) and a `?` before it is acted on)
+            if sb != it[0].bb:
+                r_eq = q.BoolFlow(b, sb, ssi, {res: 1 - uneq}, avoid={it[0].bb}).in_state
+                r_ne = q.BoolFlow(b, sb, ssi, {res: uneq}, avoid={it[0].bb}).in_state
+                reach = set(r_eq) | set(r_ne)
+            else:
+                reach = set()
             d["every-response-compared"] = al[0].bb not in reach and all(x[0] not in reach for x in maybe_true)
             # and every item the iterator yields reaches the comparison: from the Some edge of next() neither the
             # next item, the next frame nor a possibly-true Ok can be reached around the comparison (an item
@@ -287,8 +293,11 @@ def summaries(prog, rep, tag):
         if uses_bitmap and lossy and zero:
             rep.violation(P, "%s|bitmap-loses-%s%s" % (fn, "+".join(zero), tag), "%s is derived from the OR bitmap of group_state(); state %s has code 0 and contributes no bits, so the predicate can hold although a SubDevice reported %s (or did not answer)" % (fn, zero, zero), loc=b.span)
         else:
-            direct = any((c.decl_s or "").endswith("::all") for x in scope for c in x.calls())
-            rep.ob(P, "%s:element-wise%s" % (fn, tag), direct and not uses_bitmap, "%s compares the reported states element by element (Iterator::all), not through the lossy bitmap" % fn, loc=b.span)
+            # element by element: an all / any over the state list (`all(==)` and `!any(!=)` are the same predicate), or an
+            # explicit loop over it, with an (in)equality on SubDeviceState inside
+            direct = any((c.decl_s or "").split("::")[-1] in ("all", "any", "find", "position", "next") for x in scope for c in x.calls())
+            compares = any(c.is_("PartialEq::eq", "PartialEq::ne") and "SubDeviceState" in (c.res_s or c.decl_s or "") for x in scope for c in x.calls()) or any(cd.kind == "discr" and "SubDeviceState" in (cd.enum_ty or "") for x in scope for cd in q.conds(x))
+            rep.ob(P, "%s:element-wise%s" % (fn, tag), direct and compares and not uses_bitmap, "%s compares the reported states element by element, not through the lossy bitmap" % fn, loc=b.span)
 
 
 def request(prog, rep, tag):
